@@ -214,7 +214,7 @@ class TranslatorC(Translator):
                 arg = expr.args[0]
                 out = self.from_expr(arg)
                 if expr.size <= self.NATIVE_INT_MAX_SIZE:
-                    out = "(~ %s)&%s" % (out, self._size2mask(arg.size))
+                    out = "((~ %s)&%s)" % (out, self._size2mask(arg.size))
                 else:
                     out = "bignum_not(%s)" % out
                     out = "bignum_mask(%s, %d)" % (out, expr.size)
